@@ -86,9 +86,20 @@ def mk_flags(world):
 def build_profiles(world):
     N = ns()
     profs = []
+
+    def rt_of(s):
+        # "unit": "ms" / "s": the runtime is handed to the code in a coarser EventTime unit ("rt" stays microseconds in the
+        # world description and must be a multiple of the unit): arithmetic that forgets the unit is exposed
+        u = s.get("unit", "us")
+        if u == "us":
+            return us(s["rt"])
+        f = {"ms": 1000, "s": 1000000}[u]
+        assert s["rt"] % f == 0, s
+        return N.EventTime(s["rt"] // f, {"ms": N.EventTime.Unit.MS, "s": N.EventTime.Unit.S}[u])
+
     for p in world["profiles"]:
         strats = [
-            N.ExecutionStrategy(resources=mk_request(s["dem"]), batch_size=s.get("bs", 1), runtime=us(s["rt"]))
+            N.ExecutionStrategy(resources=mk_request(s["dem"]), batch_size=s.get("bs", 1), runtime=rt_of(s))
             for s in p["strats"]
         ]
         loading = [
@@ -350,7 +361,7 @@ def build(world):
 # generators
 
 SHAPES = ["single", "chain2", "chain3", "fork", "join", "diamond", "skip", "cond", "cond_uneven", "two_cond", "disconnected",
-          "uneven_join", "rand_dag", "rand_dag"]
+          "uneven_join", "rand_dag", "rand_dag", "cond_elif"]
 
 
 def shape_jobs(shape, rnd, nprof):
@@ -405,6 +416,13 @@ def shape_jobs(shape, rnd, nprof):
             J("Y", ["T"], prob=0.5),
             J("Z", ["T"], prob=0.5),
             J("T", term=True),
+        ]
+    if shape == "cond_elif":
+        # if / else-if / else sharing ONE join, followed by another conditional
+        return [
+            J("A", ["C", "B"] if rnd.random() < 0.7 else ["B", "C"], cond=True), J("B", ["D", "E"], cond=True, prob=0.5), J("C", ["Jn"], prob=0.5),
+            J("D", ["Jn"], prob=0.5), J("E", ["Jn"], prob=0.5), J("Jn", ["X"], term=True),
+            J("X", ["Y", "Z"], cond=True), J("Y", ["T"], prob=0.5), J("Z", ["T"], prob=0.5), J("T", ["K"], term=True), J("K"),
         ]
     if shape == "disconnected":
         return [J("A", ["B"]), J("B"), J("C")]
@@ -713,6 +731,42 @@ def directed_worlds():
             {"at": 20, "decs": [{"do": "evict", "profile": "M0", "pool": 1, "time": 21}]}]},
         "flags": {"timeout": 100, "frequency": 2}, "seed": 1,
     })
+    # a worker that registers a resource under the wildcard id `any` and tasks that ask for a concrete id of that name (and
+    # the other way round on a second worker): the wildcard matches, the quantity is really taken, the tasks serialise
+    out.append({
+        "name": "wildcard_instance_specific_request",
+        "profiles": [{"name": "P0", "strats": [{"dem": [R("gpu", "g0", 1)], "rt": 4, "bs": 1}]},
+                     {"name": "P1", "strats": [{"dem": [R("gpu", "any", 1), R("cpu", "c7", 1)], "rt": 3, "bs": 1}]}],
+        "graphs": [{"name": "G0", "jobs": [{"name": "A", "profile": 0}, {"name": "B", "profile": 0}, {"name": "C", "profile": 1}],
+                    "policy": {"type": "fixed", "period": 2, "n": 3, "start": 0}, "dv": [0, 0]}],
+        "pools": [[[I("gpu", "any", 1), I("cpu", "any", 1)]], [[I("gpu", "g0", 1), I("cpu", "c7", 2)]]],
+        "sched": {"kind": "edf", "runtime": 0}, "flags": {"timeout": 2000, "expect_all_done": True}, "seed": 1,
+    })
+    # runtimes given in milliseconds (2 ms, 1 ms) next to a microsecond task: the long tasks are stepped in pieces by the
+    # events of the short ones (releases every 300us) and must still hold their resources for exactly their runtime
+    for nm, sched in (("ms_runtimes_edf", {"kind": "edf", "runtime": 0}), ("ms_runtimes_lsf_variance", {"kind": "lsf", "runtime": 0})):
+        out.append({
+            "name": nm,
+            "profiles": [{"name": "PA", "strats": [{"dem": gpu1, "rt": 2000, "bs": 1, "unit": "ms"}]},
+                         {"name": "PB", "strats": [{"dem": gpu1, "rt": 1000, "bs": 1, "unit": "ms"}, {"dem": [R("gpu", "any", 2)], "rt": 3000, "bs": 1, "unit": "ms"}]},
+                         {"name": "PC", "strats": [{"dem": gpu1, "rt": 700, "bs": 1}]}],
+            "graphs": [{"name": "G0", "jobs": [{"name": "A", "profile": 0, "children": ["B"]}, {"name": "B", "profile": 1}],
+                        "policy": {"type": "fixed", "period": 1500, "n": 2, "start": 0}, "dv": [0, 0]},
+                       {"name": "G1", "jobs": [{"name": "C", "profile": 2}], "policy": {"type": "fixed", "period": 300, "n": 6, "start": 100}, "dv": [0, 0]}],
+            "pools": [[[I("gpu", "g1", 2)]]], "sched": sched,
+            "flags": {"timeout": 20000, "expect_all_done": True, "variance": 30 if "variance" in nm else 0}, "seed": 8,
+        })
+    # if / else-if / else with one shared join, then another conditional; resolved at submission (several invocations: the
+    # alternating resolver takes different arms) and drawn at run time
+    for nm, fl in (("cond_elif_resolved", {"resolve_conditionals": True}), ("cond_elif_resolved_b_first", {"resolve_conditionals": True}),
+                   ("cond_elif_runtime", {})):
+        ce_jobs = shape_jobs("cond_elif", random.Random(6), 2)
+        ce_jobs[0]["children"] = ["B", "C"] if nm.endswith("b_first") else ["C", "B"]   # which arm the alternating resolver takes
+        out.append({
+            "name": nm, "profiles": [P(2), P(3)],
+            "graphs": [{"name": "G0", "jobs": ce_jobs, "policy": {"type": "fixed", "period": 5, "n": 4, "start": 0}, "dv": [0, 0]}],
+            "pools": [[[I("gpu", "g1", 2)]]], "sched": {"kind": "edf", "runtime": 0}, "flags": dict(fl, timeout=600), "seed": 6,
+        })
     # a task on a conditional branch that also has a skip edge from a task BEFORE the conditional: when the branch is not
     # taken the whole branch (B, b2, b3) is cancelled up to but excluding the join J, whatever the traversal order
     sk_jobs = [{"name": "P", "profile": 0, "children": ["C", "b2"]}, {"name": "C", "profile": 0, "children": ["A", "B"], "cond": True},
@@ -739,6 +793,20 @@ def directed_worlds():
                          "timestamps": 4, "period": 10, "start": 0, "deadline": 60, "pipelined": False}],
             "pools": [[[I("gpu", "g1", 2)], [I("gpu", "g2", 1)]]], "sched": sched, "flags": {"timeout": 400, "frequency": 5 if sched["kind"] != "edf" else -1}, "seed": 3,
         })
+    # a plan for a still-VIRTUAL task that carries its own (future) release time is retracted before that release: the
+    # task falls back to VIRTUAL (its earlier state), is planned again and released at its own time
+    out.append({
+        "name": "retract_plan_of_virtual_task_with_release_time", "profiles": [P(6), P(3)], "graphs": [],
+        "tgraphs": [{"name": "T0", "jobs": [{"name": "Cam", "profile": 0, "children": ["Det"]}, {"name": "Det", "profile": 1}],
+                     "timestamps": 2, "period": 10, "start": 0, "deadline": 80, "pipelined": False, "own_release": True}],
+        "pools": [[[I("gpu", "g1", 2)]]],
+        "sched": {"kind": "scripted", "runtime": 0, "lookahead": 40, "retract": True, "script": [
+            {"at": 0, "decs": [{"task": "Cam@T0", "do": "place", "time": 0, "ts": 0}]},
+            {"at": 2, "decs": [{"task": "Cam@T0", "do": "place", "time": 20, "force": True, "ts": 1}]},
+            {"at": 4, "decs": [{"task": "Cam@T0", "do": "unplaced", "force": True, "ts": 1}]},
+            {"at": 8, "decs": [{"task": "Cam@T0", "do": "place", "time": 25, "force": True, "ts": 1}]}]},
+        "flags": {"timeout": 200, "frequency": 2}, "seed": 1,
+    })
     # the frontier's completion estimates through a join reached by paths of unequal length: P1(10) -> M and
     # P2(100) -> X1 -> X2 -> M(20) -> G; an unrelated task O is released at t=50 and triggers an invocation while the
     # long path still runs: G (and M) must not be offered (lookahead 0), and with a lookahead exactly those tasks whose
